@@ -734,8 +734,8 @@ func c09OApply(s *c09OS, o c09Op) (msg, sig string) {
 				for i, j := 0, len(ks)-1; i < j; i, j = i+1, j-1 {
 					ks[i], ks[j] = ks[j], ks[i]
 				}
-				if len(ks) > 0 {
-					ks = append(ks, ks[0])
+				if len(ks) > 0 && len(ks)%2 == 1 {
+					ks = append(ks, ks[0]) // odd key count: one key twice; even key count: exactly the key set
 				}
 				before := fmt.Sprint(ks)
 				msg, sig = bindDerivedObj(w, ro.Pluck(ks...), cp(recv.M), o.R, what)
